@@ -17,6 +17,7 @@ FILES = ['src/containers/fast_vec.rs', 'src/containers/specialized/valvec32.rs',
 
 def run(ctx):
     fx = ctx.facts("default")
+    order.use_facts(fx)
     fixtures.run(ctx, ['state', 'taint', 'wrap', 'emptyrange'])
     # ring cursors are only ever stored wrapped; drop loops of shrinking operations are not empty by construction
     wrap.run(ctx, fx, 'src/containers/specialized/circular_queue.rs', 'containers::specialized::circular_queue::AutoGrowCircularQueue')
